@@ -20,7 +20,7 @@ import (
 )
 
 type fuzzTarget struct {
-	name           string
+	name            string
 	quick, thorough int
 }
 
